@@ -11,6 +11,8 @@ from .common import arm_for, explain, find_in, has_call, has_stmt
 
 
 def run(ctx: Ctx) -> None:
+    if getattr(ctx, "_depth", 0) >= 2:
+        return  # alias of an alias: not followed (breaks import cycles between rule modules)
     repo = ctx.repo
     ctx.rule("C15.R1", "asyncio: every exit of the trigger wait sets `terminated`, closes the listeners, waits for connection tasks at most config.graceful_timeout, then runs lifespan shutdown; nothing that waits for connection handlers precedes the bounded wait", floor=5)
     ctx.rule("C15.R2", "trio: every exit of the trigger nursery sets `terminated` and puts a deadline of now + config.graceful_timeout on the nursery that owns the connection handlers", floor=3)
